@@ -644,6 +644,20 @@ class Interp:
         if k == 'L':
             fr = st.frames[ptr[1]]
             if not ptr[3]:
+                if st.aux:
+                    place = ('loc', ptr[1], ptr[2])
+                    if any(e[0] == place or e[1] == place for e in st.aux):
+                        old = fr.get(ptr[2])
+                        c = None
+                        if isinstance(old, tuple) and len(old) == 2 and old[0] == 'int' and v[0] == 'int' and len(v) == 2:
+                            if isinstance(old[1], int) and isinstance(v[1], int):
+                                c = v[1] - old[1]
+                            else:
+                                c = slots.exact_diff(st.zone, v[1], old[1])
+                        if c is None:
+                            slots.aux_drop(st, lambda q: q == place)
+                        else:
+                            slots.aux_shift(st, place, c)
                 fr[ptr[2]] = v
             else:
                 fr[ptr[2]] = self._proj_store(fr.get(ptr[2], MOVED), ptr[3], v)
@@ -704,6 +718,12 @@ class Interp:
             st.log('scan-incomplete', mid, ex, self.facts_about(st, [old] + ([ex[1], ex[2]] if ex else [])))
         lv = slots.live(st, mid, old) if grow1 else None
         ktag = slots.content(st, mid, old)[0] if (grow1 and lv is True) else None
+        if st.aux and any(e[0] == ('len', mid) or e[1] == ('len', mid) for e in st.aux):
+            c = slots.exact_diff(z, new, old) if not (isinstance(new, int) and isinstance(old, int)) else new - old
+            if c is None:
+                slots.aux_drop(st, lambda q: q == ('len', mid))
+            else:
+                slots.aux_shift(st, ('len', mid), c)
         out = slots.set_len(st, mid, new)
         for s in out:
             m2 = s.maps[mid]
@@ -948,11 +968,14 @@ class Interp:
     def check_live(self, st, mid, idx, prim):
         """O2: slot is live"""
         if st.aux and not isinstance(idx, int):
-            # len - idx is carried as an auxiliary difference term and is positive: idx < len
-            ms0 = st.maps[mid]
-            d = slots.aux_get(st, ms0.len, idx)
-            if d is not None and st.zone.entails_lt(0, d):
-                st.zone.add_lt(idx, ms0.len)
+            # len - (a local whose value is idx) is carried as an auxiliary difference and is positive: idx < len
+            z0 = st.zone
+            for h, l, d in st.aux:
+                if h == ('len', mid) and l[0] == 'loc' and not isinstance(d, int) and z0.entails_lt(0, d):
+                    v = st.frames.get(l[1], {}).get(l[2])
+                    if isinstance(v, tuple) and len(v) == 2 and v[0] == 'int' and (v[1] is idx or z0.entails_eq(v[1], idx)):
+                        z0.add_lt(idx, st.maps[mid].len)
+                        break
         lv = slots.live(st, mid, idx)
         ms = st.maps[mid]
         self.oblig('O2', lv is True, prim,
@@ -1152,15 +1175,11 @@ class Interp:
                 z.add_le(y, x)
                 if isinstance(y, int):
                     z.add_eq(x, t, y)
-                    if z.sat:
-                        slots.note_shift(st, x, t, -y)
                 else:
                     z.add_le(t, x)
             else:
                 if isinstance(y, int):
                     z.add_eq(t, x, y)
-                    if z.sat:
-                        slots.note_shift(st, x, t, y)
                 else:
                     z.add_le(x, t)
                     z.add_le(y, t)
@@ -1300,6 +1319,7 @@ class Interp:
                     if ln[0] != 'int':
                         raise Unproven('container built with a non-integer len')
                     if not (isinstance(ln[1], int) and ln[1] == 0):
+                        slots.aux_drop(st, lambda q: q == ('len', mid))
                         sts = slots.set_len(st, mid, ln[1])
                         return [(s, ('map', mid)) for s in sts]
                     return [(st, ('map', mid))]
@@ -1453,12 +1473,10 @@ class Interp:
             if base == 'Add':
                 if isinstance(y, int) and z.has_strict_upper_term(x, y):
                     z.add_eq(t, x, y)
-                    slots.note_shift(st, x, t, y)
             else:
                 if z.entails_le(y, x):
                     if isinstance(y, int):
                         z.add_eq(x, t, y)
-                        slots.note_shift(st, x, t, -y)
                     else:
                         z.add_le(t, x)
             return I(t)
